@@ -39,6 +39,18 @@ def main(tier, rep):
                                  ("call", op, nrs[n % len(nrs)], {("close", 1): ("pre", ik) if pre else ik}, "all"), ("tick", 1)]
                         steps += [("call", f[0], f[1], None, "all") for f in L.FOLLOWUPS[n % len(L.FOLLOWUPS)] if L.has_op(kind, f[0])]
                         progs.append((cfg, steps))
+    # a pooled call rejected before any exchange (illegal key) gives the connection back through the pool's failure path:
+    # its close() is an interruption point as well
+    for kind in ("pooled", "hashpooled"):
+        for mp in (1, 2):
+            for ik in L.INTERRUPT_KINDS:
+                for pre in (False, True):
+                    n += 1
+                    cfg = L.Cfg(kind=kind, max_pool=mp, default_noreply=(n % 2 == 0))
+                    steps = [("call", "set", False, None, "all"), ("tick", 1),
+                             ("call", "get_illegal", None, {("close", 1): ("pre", ik) if pre else ik}, "all"), ("tick", 1)]
+                    steps += [("call", f[0], f[1], None, "all") for f in L.FOLLOWUPS[n % len(L.FOLLOWUPS)] if L.has_op(kind, f[0])]
+                    progs.append((cfg, steps))
     traces = [L.run_program(cfg, steps) for cfg, steps in progs]
     L.validate(rep, traces, relevant, PROP)
     from drivers import connmodel
